@@ -230,6 +230,7 @@ def prove_one(task):
             from .source import skeleton
             fps = _json.load(open(os.path.join(os.path.dirname(os.path.dirname(os.path.abspath(__file__))), "specs", "fingerprints.json")))
             if key in fps and fps[key] != skeleton(fn):
+                out["restructured"] = True
                 for r in out["obligations"]:
                     if r["status"] in ("failed", "unknown") and not r.get("replayed") and r.get("expect") == "valid":
                         r["status"] = "drift"
@@ -303,6 +304,7 @@ def prove_functions(spec_modules, keys, tier="quick", procs=16, lemma_groups=())
             m0["obligations"].extend(r["obligations"])
             m0["builtins"] = sorted(set(m0.get("builtins", [])) | set(r.get("builtins", [])))
             m0["error"] = m0["error"] or r["error"]
+            m0["restructured"] = m0.get("restructured") or r.get("restructured")
             m0["drift"] = m0["drift"] or r["drift"]
     for r in merged.values():
         fname = r["function"] + (str(r["variant"]) if r["variant"] else "")
@@ -328,7 +330,13 @@ def prove_functions(spec_modules, keys, tier="quick", procs=16, lemma_groups=())
         for base, sts in groups.items():
             if all(x == "vacuous" for x in sts):
                 vac += 1
-                rep["defects"].append(f"vacuity: {base} unreachable on every path (hypotheses unsatisfiable)")
+                if r.get("restructured"):
+                    # the code was restructured since the contract was attached: dead code under the contract is a mismatch
+                    # to be re-attached (undecided), not a defect of the checker
+                    rep["obligations"].append({"name": base, "status": "drift", "time": 0, "expect": "valid", "kind": "cover",
+                                               "detail": "unreachable under the contract after the function was restructured"})
+                else:
+                    rep["defects"].append(f"vacuity: {base} unreachable on every path (hypotheses unsatisfiable)")
         if n_real == 0:
             rep["defects"].append(f"{fname}: zero obligations generated")
     rep["obligations"].extend(lem_res)
